@@ -269,3 +269,26 @@ mut('c11-mse-writes-target', ['C11'], 'mse_loss_backward reuses the target array
     [(K, "    return grad * 2 * (y_pred - y_true)", "    np.subtract(y_pred, y_true, out=y_true)\n    return grad * 2 * y_true")], rules=['C11.KERNEL-PURE'])
 mut('c11-dropout-in-op', ['C11'], 'relu kernel adds random jitter', [(K, "return np.maximum(0, a)\n\ndef relu_backward", "return np.maximum(0, a + 0 * np.random.rand())\n\ndef relu_backward")], rules=['C11.DET'])
 mut('c11-twin-copy-then-inplace', ['C11'], 'add_forward copies then adds in place', [(K, "def add_forward(a:np.ndarray, b:np.ndarray):\n    return a + b", "def add_forward(a:np.ndarray, b:np.ndarray):\n    out = a.copy()\n    out += b\n    return out")], expect='silent')
+
+# ------------------------------------------------------------------------------------------------ C08
+mut('c08-sgd-buffer-alias (revert of fix)', ['C08'], 'first momentum buffer is the gradient array itself', [(O, "self.momentum_buffer[i] = np.array(grad)", "self.momentum_buffer[i] = grad")], rules=['C08.OWN'])
+mut('c08-sgd-buffer-asarray', ['C08'], 'first momentum buffer stored with np.asarray (no copy)', [(O, "self.momentum_buffer[i] = np.array(grad)", "self.momentum_buffer[i] = np.asarray(grad)")], rules=['C08.OWN'])
+mut('c08-sgd-maximize-late (revert of fix)', ['C08'], 'maximize flips the sign of the final update (after weight decay)',
+    [(O, "                grad = -p._grad if self.maximize else p._grad\n                \n                # Weight decay\n                if self.weight_decay != 0:\n                    grad = grad + self.weight_decay*p.data\n                \n                # Momentum",
+      "                grad = p._grad\n                \n                # Weight decay\n                if self.weight_decay != 0:\n                    grad = grad + self.weight_decay*p.data\n                \n                # Momentum"),
+     (O, "                p.data -= self.lr*grad\n        \n    \nclass Adam", "                if self.maximize:\n                    p.data += self.lr*grad\n                else:\n                    p.data -= self.lr*grad\n        \n    \nclass Adam")], rules=['C08.FORMULA'])
+mut('c08-frozen-unguarded (revert of fix)', ['C08'], 'SGD.step updates parameters that do not require grad', [(O, "                if not p.requires_grad or p._grad is None: continue\n                grad = -p._grad if self.maximize else p._grad\n                \n                # Weight decay\n                if self.weight_decay != 0:\n                    grad = grad + self.weight_decay*p.data\n                \n                # Momentum",
+      "                if p._grad is None: continue\n                grad = -p._grad if self.maximize else p._grad\n                \n                # Weight decay\n                if self.weight_decay != 0:\n                    grad = grad + self.weight_decay*p.data\n                \n                # Momentum")], rules=['C08.FROZEN'])
+mut('c08-rebinding-update', ['C08'], 'Adam rebinds p.data instead of updating in place', [(O, "                p.data -= (self.lr * m1_corrected) / (np.sqrt(m2_corrected) + self.epsilon)\n                \n                \nclass AdamW", "                p.data = p.data - (self.lr * m1_corrected) / (np.sqrt(m2_corrected) + self.epsilon)\n                \n                \nclass AdamW")], rules=['C08.INPLACE'])
+mut('c08-missing-super-step', ['C08'], 'AdamW.step never advances the step counter', [(O, "        self.m2 = [0 for _ in range(len(parameters))]\n        \n    def step(self):\n        super().step()\n", "        self.m2 = [0 for _ in range(len(parameters))]\n        \n    def step(self):\n")], rules=['C08.COUNTER'])
+mut('c08-nesterov-dampened', ['C08'], 'Nesterov look-ahead scaled by (1 - dampening)', [(O, "grad = grad + self.momentum*self.momentum_buffer[i]", "grad = (1.0 - self.dampening)*grad + self.momentum*self.momentum_buffer[i]")], rules=['C08.FORMULA'])
+mut('c08-first-step-dampened', ['C08'], 'first momentum step applies dampening (PyTorch sets buf = g)', [(O, "self.momentum_buffer[i] = np.array(grad)", "self.momentum_buffer[i] = (1.0 - self.dampening)*grad")], rules=['C08.FORMULA'])
+mut('c08-bias-correction-t-minus-1', ['C08'], 'Adam second-moment bias correction uses t-1', [(O, "                m2_corrected = self.m2[i] / (1.0 - self.beta2**self.t)\n\n                # Update the parameters using the Adam formula\n                p.data -= (self.lr * m1_corrected) / (np.sqrt(m2_corrected) + self.epsilon)\n                \n                \nclass AdamW",
+      "                m2_corrected = self.m2[i] / (1.0 - self.beta2**(self.t - 1) + 1e-30)\n\n                # Update the parameters using the Adam formula\n                p.data -= (self.lr * m1_corrected) / (np.sqrt(m2_corrected) + self.epsilon)\n                \n                \nclass AdamW")], rules=['C08.FORMULA'])
+mut('c08-adam-eps-inside-sqrt', ['C08'], 'Adam adds epsilon inside the square root', [(O, "                p.data -= (self.lr * m1_corrected) / (np.sqrt(m2_corrected) + self.epsilon)\n                \n                \nclass AdamW", "                p.data -= (self.lr * m1_corrected) / np.sqrt(m2_corrected + self.epsilon)\n                \n                \nclass AdamW")], rules=['C08.FORMULA'])
+mut('c08-adamw-coupled-decay', ['C08'], 'AdamW adds weight decay to the gradient (L2, not decoupled)', [(O, "                # Weight decay\n                p.data -= self.lr*self.weight_decay*p.data\n", "                # Weight decay\n                grad = grad + self.weight_decay*p.data\n")], rules=['C08.FORMULA'])
+mut('c08-adamw-decay-unscaled', ['C08'], 'AdamW decay not scaled by lr', [(O, "p.data -= self.lr*self.weight_decay*p.data", "p.data -= self.weight_decay*p.data")], rules=['C08.FORMULA'])
+mut('c08-step-outside-no-grad', ['C08'], 'Adam.step updates outside no_grad', [(O, "    def step(self):\n        super().step()\n        with synapgrad.no_grad():\n            for i, p in enumerate(self.parameters):\n                if not p.requires_grad or p._grad is None: continue\n                grad = -p._grad if self.maximize else p._grad   \n                    \n                # Weight decay\n                if self.weight_decay != 0:",
+      "    def step(self):\n        super().step()\n        if True:\n            for i, p in enumerate(self.parameters):\n                if not p.requires_grad or p._grad is None: continue\n                grad = -p._grad if self.maximize else p._grad   \n                    \n                # Weight decay\n                if self.weight_decay != 0:")], rules=['C08.NOGRAD'], accept_incomplete=True)
+mut('c08-twin-reassociated', ['C08'], 'Adam update re-associated: lr * (m_hat / (sqrt(v_hat) + eps))', [(O, "                p.data -= (self.lr * m1_corrected) / (np.sqrt(m2_corrected) + self.epsilon)\n                \n                \nclass AdamW", "                p.data -= self.lr * (m1_corrected / (m2_corrected**0.5 + self.epsilon))\n                \n                \nclass AdamW")], expect='silent')
+mut('c08-twin-sgd-temp', ['C08'], 'SGD momentum update through a temporary and commuted products', [(O, "self.momentum_buffer[i] = self.momentum*self.momentum_buffer[i] + (1.0 - self.dampening)*grad", "buf = self.momentum_buffer[i]*self.momentum\n                        self.momentum_buffer[i] = buf + grad*(1.0 - self.dampening)")], expect='silent')
